@@ -145,3 +145,14 @@ MUTANTS += [
     M('C19', 'close-does-not-mark', 'loader.py', "            self.file = None\n            self.closed = True", "            self.file = None\n            self.closed = bool(self.url)"),
     M('C19', 'include-last-resource-kept', 'loader.py', "    def __exit__(self, t, v, tb):\n        self.close()", "    def __exit__(self, t, v, tb):\n        if t is None or not issubclass(t, ValueError):\n            self.close()"),
 ]
+
+MUTANTS += [
+    # ---------------- C18
+    M('C18', 'urlnormalize-two-slashes', 'url.py', 'if lc.startswith("file:/") and not lc.startswith("file:///"):', 'if lc.startswith("file:/") and not lc.startswith("file://"):'),
+    M('C18', 'urlnormalize-case-sensitive', 'url.py', "    lc = url.lower()\n", "    lc = url\n"),
+    M('C18', 'isPath-len-le-2', 'loader.py', "            return len(m.group(0)) == 2", "            return len(m.group(0)) <= 3"),
+    M('C18', 'pathsep-loses-plus', 'loader.py', 'r"[a-zA-Z][-+.a-zA-Z0-9]*:"', 'r"[a-zA-Z][-.a-zA-Z0-9]*:"'),
+    M('C18', 'fragment-accepted', 'loader.py', "        if fragment:\n            raise ZConfig.ConfigurationError(\n                \"fragment identifiers are not supported\",\n                url)", "        if fragment and len(fragment) > 1:\n            raise ZConfig.ConfigurationError(\n                \"fragment identifiers are not supported\",\n                url)"),
+    M('C18', 'url-from-file-or', 'loader.py', 'if name and name[0] != "<" and name[-1] != ">":', 'if name and (name[0] != "<" or name[-1] != ">"):'),
+    M('C18', 'urljoin-wrapper-slice', 'url.py', '        url = "file://" + url[5:]  # pragma: no cover\n    return url\n\n\ndef urldefrag', '        url = "file://" + url[6:]  # pragma: no cover\n    return url\n\n\ndef urldefrag'),
+]
